@@ -48,7 +48,8 @@ IInit == /\ TLCSet(1, ndJsonDeserialize(IOEnv.TRACE))
 
 IReset == /\ Line.k = "reset"
           /\ run' = Line.run /\ opts' = [autoforward |-> Line.autoforward, finalize |-> Line.finalize, child |-> Line.child]
-          /\ skip' = FALSE /\ inP1' = FALSE /\ running' = FALSE /\ cancelling' = FALSE /\ ownDone' = FALSE
+          /\ skip' = (Line.scenario # "one")      \* runs of the other scenario are judged by Trace_InvokeAll
+          /\ inP1' = FALSE /\ running' = FALSE /\ cancelling' = FALSE /\ ownDone' = FALSE
           /\ doneSeen' = FALSE /\ doneOwed' = 0 /\ csent' = <<>> /\ goSent' = 0 /\ goGot' = 0 /\ finPending' = FALSE
           /\ l' = l + 1
 
